@@ -662,7 +662,7 @@ Proof. vm_compute. repeat split. Qed.
    from 10.0.0.5 over UDP and its Route names 10.0.0.5:5070 with transport=tcp; 10.0.0.5 accepts
    TCP connections on 5070. *)
 Definition b1_fixes : fixes :=
-  {| fx_wiring := true; fx_udp_via_listener := false; fx_indialog_invite := true; fx_bracket_host := true; fx_resolved_key := true |}.
+  {| fx_wiring := true; fx_udp_via_listener := false; fx_indialog_invite := true; fx_bracket_host := true; fx_resolved_key := true; fx_stale_pin := true |}.
 Definition b1_req : list string :=
   req "sip:bob@elsewhere.example" [] ["Route: <sip:10.0.0.5:5070;transport=tcp;lr>"%string] "<sip:bob@elsewhere.example>" [].
 Theorem C03_b1_legacy_refuted :
